@@ -9,6 +9,8 @@ THEOREMS = [
     "BSVerif.Props.C01.skip_tree",
     "BSVerif.Props.C01.layoutOf_doc",
     "BSVerif.Props.C01.saved_object_loads_back",
+    "BSVerif.Props.C01.saved_object_loads_back_with_arrays",
+    "BSVerif.Props.C01.layoutOf_arrwf",
     "BSVerif.Props.C03.history_correct",
     "BSVerif.Props.C03.close_after_any_history",
     "BSVerif.Props.C09.archive_roundtrip",
